@@ -14,7 +14,7 @@ Not decided: numerical equality, actual schedules, behaviour of the OS primitive
 import ast
 
 from sa import AnalysisError
-from sa.astutil import dotted, src, stmt_text, params, find_stmts, calls_in, method_name, walk_no_nested, const
+from sa.astutil import dotted, src, stmt_text, params, find_stmts, calls_in, method_name, walk_no_nested, const, deep_resolved
 from sa.paths import PathEnumerator, Event
 from sa.guards import facts_at, enclosing_conditions, decompose
 
@@ -306,7 +306,8 @@ def check_builder(model, rep):
                 def branches(e, cs=()):
                     # self._block_for(...) calls an expression may evaluate to, with the conditions under which it does (conditional expressions)
                     if isinstance(e, ast.IfExp):
-                        t = tuple((src(a), v) for a, v in decompose(e.test, True)), tuple((src(a), v) for a, v in decompose(e.test, False))
+                        test = deep_resolved(f.node, e.test)     # the test may have been given a name
+                        t = tuple((src(a), v) for a, v in decompose(test, True)), tuple((src(a), v) for a, v in decompose(test, False))
                         l, r = branches(e.body, cs + t[0]), branches(e.orelse, cs + t[1])
                         return None if l is None or r is None else l + r
                     if isinstance(e, ast.Call) and src(e.func) == 'self._block_for':
@@ -357,7 +358,14 @@ def check_builder(model, rep):
     # _iter_locks / _needs_lock look at the variables of every argument
     il = b.members['_iter_locks'].func
     txt = src(il.node)
-    ok = 'for args_ in (args, kwargs.values())' in txt and 'for var in arg.variables' in txt and 'self._parent._shared_arrays.get' in txt and 'filter(None' in txt
+    # the variables of EVERY positional and keyword argument: the comprehension that collects them reads both `args` and `kwargs.values()` (nested loops over
+    # the pair, or one loop over their concatenation) and the `.variables` of each item
+    comps = [c_ for c_ in ast.walk(il.node) if isinstance(c_, (ast.GeneratorExp, ast.ListComp, ast.SetComp)) and '.variables' in src(c_)]
+    covered = False
+    for c_ in comps:
+        rt = src(deep_resolved(il.node, c_))
+        covered = covered or ('kwargs.values()' in rt and any(isinstance(n_, ast.Name) and n_.id == 'args' for n_ in ast.walk(deep_resolved(il.node, c_))))
+    ok = covered and 'self._parent._shared_arrays.get' in txt and 'filter(None' in txt
     rep.ob('R16.3', il.key, il.where(), ok, '_iter_locks maps every variable of every positional and keyword argument to its lock' if ok else
            '_iter_locks no longer covers the variables of all positional and keyword arguments', statement='iter-locks-complete')
     nl = b.members['_needs_lock'].func
